@@ -23,6 +23,8 @@ CHECK_DEADLOCK FALSE
 """
 SAFE = "INVARIANTS TypeOK P_WholeFrames P_Markers\nPROPERTIES P_AllWritten"
 DEVIATIONS = ["WuInsideFrame", "RstInsideFrame", "ZeroOverwrites", "ZeroNonEmptyDue", "DeferredSticky"]
+# what the code does (known_findings.json: reset-drops-frame-tail): must be refuted as well, conformance runs with it on
+OPEN_DEVIATIONS = ["ResetDropsFrameTail"]
 
 
 def _cfg(wd, name, spec="FairSpec", nframes=2, fparts=3, cparts=2, room=3, maxev=3, dev=(), checks=SAFE):
@@ -50,7 +52,7 @@ def check(rep, wd, pid, thorough, deviations=None):
     rep.add_tlc(v)
     if v["violated"] != "NeverBlockedWithControl":
         raise vlib.ToolError("H2Wire.tla: a half-written stream frame with control output waiting is not reachable (vacuous model)")
-    for d in (DEVIATIONS if deviations is None else deviations):
+    for d in (DEVIATIONS if deviations is None else deviations) + OPEN_DEVIATIONS:
         rd = vlib.tlc("H2Wire", _cfg(wd, "wire_dev_%s.cfg" % d, spec="Spec", dev=[d], checks="INVARIANTS P_WholeFrames"), pid, workers=2, timeout=300)
         rep.add_tlc(rd)
         if rd["violated"] != "P_WholeFrames":
